@@ -37,6 +37,11 @@ def obligations(tier):
                        encoded=ENC,
                        bounds="one control or data frame from a module in each protocol state (accepted, connected, subscribed, subscribed-to-all, logger or not), 2 other modules (0-2 loggers, an ALL subscriber, a bystander)",
                        symbolic="all header fields, control payload integers (incl. the subscription type over all of int32, so repeats and no-ops), module ids, request id/flags"),
+            # connection churn: whatever the manager keeps per connection must not outlive the connection
+            Obligation("acknowledgements_after_descriptor_reuse", "harness.mgr_churn", "churn", [{"leave": "disc"}, {"leave": "fin"}], cond_timeout=200, path_timeout=40,
+                       reach="churn_reach", encoded=ENC,
+                       bounds="a history of 6 steps from the initial state: a module connects and subscribes, leaves (DISCONNECT or orderly close), another module connects and subscribes on a connection with the same descriptor number; a logger listens throughout",
+                       symbolic="both module ids 1..99 (may coincide), the subscribed type"),
             # the client side of the handshake: the real Client._wait_for_acknowledgement picks the FIRST acknowledgement off the stream
             Obligation("client_waits_for_the_first_acknowledgement", "harness.c08_read", "h_ack_wait",
                        [{"nframes": nf, "state": st, "timeout": to, "tick": tk} for nf in ((2, 3) if tier == "quick" else (1, 2, 3)) for st in ("none", "sub", "all")
